@@ -1,7 +1,7 @@
 (* Codec engine — the mapping codec tables: the facts T1 regenerates from /repo/mapping
    (Extracted.XMapping: struct tags, `case "key":` lists, decode-side defaults) turned into the
    environment the generic codec of StructCodec.v runs on.  Definitions only. *)
-From Coq Require Import ZArith List Bool.
+From Coq Require Import String ZArith List Bool.
 From Verif Require Import Common.Bytes Codec.Json Codec.StructCodec Extracted.Extracted.
 Import ListNotations.
 Local Open Scope Z_scope.
@@ -45,18 +45,18 @@ Fixpoint conv_dflt (fuel : nat) (k : kind) (d : XMapping.xdflt) {struct fuel} : 
             match lookup n raw_tables with
             | None => None
             | Some tbl =>
-                if forallb (fun fd => memb (fst fd) (map te_field tbl)) fs then
-                  match mapM (fun e => match lookup (te_field e) fs with
-                                       | None => Some (te_field e, zero (te_kind e))
-                                       | Some d' => match conv_dflt f (te_kind e) d' with
-                                                    | Some v => Some (te_field e, v)
-                                                    | None => None
-                                                    end
-                                       end) tbl with
-                  | Some r => Some (VPtr r)
-                  | None => None
-                  end
-                else None
+                (* fields of the literal the struct does not marshal (the cache) are not part of the
+                   value; that they carry no state is the stateless-fields obligation *)
+                match mapM (fun e => match lookup (te_field e) fs with
+                                     | None => Some (te_field e, zero (te_kind e))
+                                     | Some d' => match conv_dflt f (te_kind e) d' with
+                                                  | Some v => Some (te_field e, v)
+                                                  | None => None
+                                                  end
+                                     end) tbl with
+                | Some r => Some (VPtr r)
+                | None => None
+                end
             end
           else None
       | _, _ => None
@@ -74,6 +74,15 @@ Definition conv_defaults (x : XMapping.xstruct) : list (bytes * option value) :=
       | Some e => [(fst fd, conv_dflt dflt_fuel (te_kind e) (snd fd))]
       end) (XMapping.x_defaults x).
 
+(* Validity of a mapping beyond its Go type.  IndexMappingImpl.CustomAnalysis is never nil in a
+   mapping built through the API: NewIndexMapping() and UnmarshalJSON both allocate it, the
+   AddCustom* methods dereference it.  (Because the tag says `analysis,omitempty` while the decoder's
+   default is newCustomAnalysis(), a mapping whose CustomAnalysis was explicitly set to nil comes
+   back with an empty non-nil one and then serialises with an extra "analysis":{} — the one
+   place where the tables are not consistent for arbitrary field values.) *)
+Definition required_fields : list (bytes * list bytes) :=
+  [(s2b "IndexMappingImpl", [s2b "CustomAnalysis"])].
+
 Definition conv_struct (x : XMapping.xstruct) : sdef :=
   {| s_table := conv_table x;
      s_all_fields := XMapping.x_all_fields x;
@@ -82,7 +91,8 @@ Definition conv_struct (x : XMapping.xstruct) : sdef :=
      s_defaults := flat_map (fun fo => match snd fo with Some v => [(fst fo, v)] | None => [] end)
                             (conv_defaults x);
      s_post_assigns := XMapping.x_post_assigns x;
-     s_rejects_unknown := XMapping.x_strict_rejects_unknown x |}.
+     s_rejects_unknown := XMapping.x_strict_rejects_unknown x;
+     s_required := match lookup (XMapping.x_name x) required_fields with Some l => l | None => [] end |}.
 
 Definition mapping_env : env := map (fun x => (XMapping.x_name x, conv_struct x)) XMapping.structs.
 
